@@ -51,6 +51,11 @@ enum K {
     Mod,
     Ok,
     Other,
+    /// a generic constructor function `#<'t>'t { G[p: ~, q: E] }`
+    Mk,
+    /// (literal `G[p: i, q: E]`, the same value built by a generic constructor): equal values that
+    /// carry different internal tuple ids; the name of the second is the first's with `v` appended
+    GPair,
 }
 
 #[derive(Default, Clone)]
@@ -92,6 +97,7 @@ pub struct StepText {
     pub uses_prev: bool,
     pub import: bool,
     pub type_test: bool,
+    pub equality: bool,
 }
 
 pub const MODULE: &str = "[k: 5, inc: #'int { [~, 1] __integer_add__ }, tag: 0xbeef]";
@@ -136,7 +142,7 @@ pub fn render_steps(dice: &[[u8; 4]]) -> Vec<StepText> {
     for (i, d) in dice.iter().enumerate() {
         let mut st = StepText::default();
         let mut kind = K::Ok;
-        let choice = d[0] % 31;
+        let choice = d[0] % 34;
         let text = match choice {
             1 if !env.of(K::Int).is_empty() => {
                 let v = pick(d[1], &env.of(K::Int)).0.clone();
@@ -240,6 +246,30 @@ pub fn render_steps(dice: &[[u8; 4]]) -> Vec<StepText> {
                 st.type_test = true;
                 let u = pick(d[1], &env.of(K::UVal)).0.clone();
                 if d[2] % 2 == 0 { format!("{u} {{ | ='int => 1 | ='bin => 2 }}") } else { format!("{u} {{ | ='bin => 2 | ='int => 1 }}") }
+            }
+            31 => {
+                let n = env.fresh("mk");
+                env.bind(&n, K::Mk, i);
+                format!("{n} = #<'t>'t {{ G[p: ~, q: E] }}")
+            }
+            32 if !env.of(K::Mk).is_empty() => {
+                let mk = pick(d[1], &env.of(K::Mk)).0.clone();
+                let n = env.fresh("ga");
+                let atom = int_atom(d[2], &env);
+                env.bind(&n, K::GPair, i);
+                env.bind(&format!("{n}v"), K::Other, i);
+                format!("{n} = G[p: {atom}, q: E], {n}v = {atom} {mk}")
+            }
+            33 if !env.of(K::GPair).is_empty() => {
+                // structural equality of two values with different internal tuple ids, possibly
+                // on a later line than the one that introduced the tuple shapes
+                let a = pick(d[1], &env.of(K::GPair)).0.clone();
+                st.equality = true;
+                match d[2] % 3 {
+                    0 => format!("{a} =&{a}v"),
+                    1 => format!("{a}v =&{a}"),
+                    _ => format!("Wr[{a}] =Wr[&{a}v]"),
+                }
             }
             // expression steps
             14 | 24 | 25 => {
@@ -372,6 +402,7 @@ pub struct Facts {
     pub uses_prev_across_lines: bool,
     pub import: bool,
     pub type_test: bool,
+    pub equality: bool,
     pub alias_only_line: bool,
     pub heap_checks: u64,
     pub inconclusive: bool,
@@ -456,6 +487,7 @@ pub fn check(c: &Case, reg: &qrun::Registry) -> Result<Facts, (String, String)> 
                 f.shadow_or_destructure |= st.shadow || st.destructure;
                 f.import |= st.import;
                 f.type_test |= st.type_test;
+                f.equality |= st.equality;
             }
             // closures on this line that captured a binding from >= 2 lines earlier
             let first_step = s.lines[..li].iter().rev().find(|l| !l.1).map(|l| l.2 + 1).unwrap_or(0);
@@ -549,6 +581,9 @@ pub fn run(ctx: &Ctx) -> i32 {
                     if f.type_test {
                         stats.class("first-type-test-on-an-older-type");
                     }
+                    if f.equality {
+                        stats.class("equality-of-values-with-different-tuple-ids");
+                    }
                     if f.alias_only_line {
                         stats.class("type-alias-only-line");
                     }
@@ -586,12 +621,12 @@ pub fn run(ctx: &Ctx) -> i32 {
         ctx,
         stats: &stats,
         violations,
-        rule: "histories of 3-13 steps drawn from: integer/binary/pair/record bindings built from earlier bindings, shadowing, destructuring (positional, partial, star, named), closures with and without a parameter capturing earlier bindings, a type alias and a function over it, an import (whole module or destructured), a function returning 'int | 'bin, a variable holding such a value and a later run-time type test on it, and expression steps (values, field access, calls, closure values, the previous result through `~`); the steps are split into lines at generated places and 0-2 rejected lines (parse error, undefined variable, type error, a binding followed by a type error, re-bindings followed by a type error, an alias followed by an undefined variable, an import followed by an error) are inserted; the environment is fresh or has already served an earlier session of 1-4 lines; the session runs in the simulator (1-3 workers, generated quantum and schedule) with the C06 heap invariants after every worker step. Oracle: every accepted line's value equals the value of the same steps compiled and run as one program; after every line — accepted or rejected — get_variables() equals the single program's bindings and request_variable(name) equals `&name` appended to the single program. evaluations = lines; non-trivial = a history with shadowing/destructuring, a line after a rejected line and a closure that captured a binding from >= 2 lines earlier; distinct by transcript".into(),
+        rule: "histories of 3-13 steps drawn from: integer/binary/pair/record bindings built from earlier bindings, shadowing, destructuring (positional, partial, star, named), closures with and without a parameter capturing earlier bindings, a type alias and a function over it, an import (whole module or destructured), a function returning 'int | 'bin, a variable holding such a value and a later run-time type test on it, a generic constructor function, a literal and the same value built by it (equal values with different internal tuple ids) and later equality tests between the two, and expression steps (values, field access, calls, closure values, the previous result through `~`); the steps are split into lines at generated places and 0-2 rejected lines (parse error, undefined variable, type error, a binding followed by a type error, re-bindings followed by a type error, an alias followed by an undefined variable, an import followed by an error) are inserted; the environment is fresh or has already served an earlier session of 1-4 lines; the session runs in the simulator (1-3 workers, generated quantum and schedule) with the C06 heap invariants after every worker step. Oracle: every accepted line's value equals the value of the same steps compiled and run as one program; after every line — accepted or rejected — get_variables() equals the single program's bindings and request_variable(name) equals `&name` appended to the single program. evaluations = lines; non-trivial = a history with shadowing/destructuring, a line after a rejected line and a closure that captured a binding from >= 2 lines earlier; distinct by transcript".into(),
         assumptions: vec![
             "no step evaluates to nil (generated steps never do), so the single program is not short-circuited".into(),
             "function values are compared by their captured values, not by index".into(),
         ],
-        required_classes: vec!["shadowing-or-destructuring", "line-after-a-rejected-line", "closure-captures-binding-from-2+-lines-earlier", "previous-result-flows-into-next-line", "import", "type-alias-only-line", "2+-workers", "environment-with-an-earlier-session", "first-type-test-on-an-older-type", "variables-compared", "rejected-lines"],
+        required_classes: vec!["shadowing-or-destructuring", "line-after-a-rejected-line", "closure-captures-binding-from-2+-lines-earlier", "previous-result-flows-into-next-line", "import", "type-alias-only-line", "2+-workers", "environment-with-an-earlier-session", "first-type-test-on-an-older-type", "equality-of-values-with-different-tuple-ids", "variables-compared", "rejected-lines"],
         started,
         technique: "proptest-generated REPL histories (steps x line splits x rejected lines x schedules) in the deterministic simulator; oracle = the same steps compiled and run as one program (per-line values, variable set and variable values) + heap invariants",
     })
